@@ -95,7 +95,8 @@ def cases(rng, tier):
         for col in t["cols"]:
             names.update([b"Name", b"DataType"] + [e[0] for e in col["extra"]])
         order = list(range(len(names))); rng.shuffle(order)
-        e = G.encode_table(t, layouts=layouts, name_order=order if rng.random() < 0.5 else None)
+        dups = [rng.randint(0, 7) for _ in range(rng.choice([1, 1, 2]))] if rng.random() < 0.12 else []
+        e = G.encode_table(t, layouts=layouts, name_order=order if (rng.random() < 0.5 and not dups) else None, dup_names=dups)
         data = bytes(e.b)
         fields = [f for f in e.fields if f[0] not in ("bytes", "elem", "bits", "run")]
         if rng.random() < 0.6:
